@@ -299,7 +299,8 @@ Definition count_model (s : raw_store) (fv : option bytes) (parts : partition_fn
     | ScOk n _ _ => CResp cur n
     end.
 
-(* ---------- Backend.GetPartitions: range.go:208-251 (with fix 51e6ded) ---------- *)
+(* ---------- Backend.GetPartitions: range.go:208-256 (with fix 51e6ded; the engine's partitions are sorted
+   by Start first, as the scanner does — fix for finding C13-F1) ---------- *)
 Definition advertise_start (first : bool) (st : bytes) : bytes :=
   if negb first && (13 <=? length st)%nat then
     match decode st with
@@ -316,7 +317,7 @@ Fixpoint advertised_keys (first : bool) (ps : list part) : list bytes :=
   end.
 
 Definition get_partitions_model (parts : partition_fn) (cur : N) (key end_ : bytes) : N * N * list bytes :=
-  let ps := parts (encode key 0) (encode end_ 0) in
+  let ps := sort_parts (parts (encode key 0) (encode end_ 0)) in
   (cur, N.of_nat (length ps), advertised_keys true ps).
 
 (* ---------- Backend.ListByStream / scanner.RangeStream: range.go:254-263, scanner.go:129-145 ----------
